@@ -174,7 +174,7 @@ macro_rules! slave_setup {
 // ============================================================================================ C09
 /// Sync (two-step): stored under its sequence id; completes only with a Follow_Up of the same id.
 #[kani::proof]
-#[kani::unwind(9)]
+#[kani::unwind(66)]
 #[kani::stub(<Duration as core::ops::Div<i32>>::div, stub_div_by_two)]
 #[kani::stub(<Duration as core::ops::Div<f64>>::div, stub_div_by_two)]
 fn c09_sync_two_step() {
@@ -217,7 +217,7 @@ fn c09_sync_two_step() {
 
 /// Sync (one-step): t1 is the originTimestamp of the same message.
 #[kani::proof]
-#[kani::unwind(9)]
+#[kani::unwind(66)]
 #[kani::stub(<Duration as core::ops::Div<i32>>::div, stub_div_by_two)]
 #[kani::stub(<Duration as core::ops::Div<f64>>::div, stub_div_by_two)]
 fn c09_sync_one_step() {
@@ -258,7 +258,7 @@ fn c09_sync_one_step() {
 
 /// Follow_Up: t1 = preciseOriginTimestamp + correctionField, paired with the Sync of the same id only.
 #[kani::proof]
-#[kani::unwind(9)]
+#[kani::unwind(66)]
 #[kani::stub(<Duration as core::ops::Div<i32>>::div, stub_div_by_two)]
 #[kani::stub(<Duration as core::ops::Div<f64>>::div, stub_div_by_two)]
 fn c09_follow_up() {
@@ -298,7 +298,7 @@ fn c09_follow_up() {
 
 /// transmit timestamp of a Delay_Req: accepted only for the request in flight (same id), once.
 #[kani::proof]
-#[kani::unwind(9)]
+#[kani::unwind(66)]
 #[kani::stub(<Duration as core::ops::Div<i32>>::div, stub_div_by_two)]
 #[kani::stub(<Duration as core::ops::Div<f64>>::div, stub_div_by_two)]
 fn c09_delay_timestamp() {
@@ -328,7 +328,7 @@ fn c09_delay_timestamp() {
 
 /// Delay_Resp: only from the selected parent, only answering *our* request with the id in flight.
 #[kani::proof]
-#[kani::unwind(9)]
+#[kani::unwind(66)]
 #[kani::stub(<Duration as core::ops::Div<i32>>::div, stub_div_by_two)]
 #[kani::stub(<Duration as core::ops::Div<f64>>::div, stub_div_by_two)]
 fn c09_delay_resp() {
@@ -367,7 +367,7 @@ fn c09_delay_resp() {
 /// Delay_Req emission: only a Slave port emits; fresh sequence id (+1 mod 2^16); the exchange record is
 /// reset to that id; exactly one event send with the DelayReq context; the delay-request timer is re-armed.
 #[kani::proof]
-#[kani::unwind(9)]
+#[kani::unwind(66)]
 #[kani::stub(crate::time::Interval::as_core_duration, stub_as_core_duration)]
 #[kani::stub(core::time::Duration::mul_f64, stub_mul_f64)]
 fn c09_send_e2e_delay_request() {
@@ -378,7 +378,6 @@ fn c09_send_e2e_delay_request() {
     let pre = port_view(&port);
     let pre_inst = instance_view(lock.peek());
     let own = port.port_identity;
-    unsafe { DECODE_FRAMES = true; }
 
     let actions = summarize(port.send_delay_request(), 3);
     let post = port_view(&port);
@@ -397,12 +396,11 @@ fn c09_send_e2e_delay_request() {
         // C12: re-arms its own timer; C10: exactly one event send
         assert!(actions.n == 2 && actions.n_reset_delay_req == 1 && actions.n_send_event == 1);
         assert!(actions.ctx_kind == 1 && actions.ctx_id == id);
-        let f = actions.event.clone().unwrap();
-        assert!(!f.link_local && f.len == 44 && f.declared_len == 44);
-        let (h, body, tlv) = f.decoded.unwrap();
-        assert!(matches!(body, MessageBody::DelayReq(_)) && tlv == 0);
-        assert!(h.sequence_id == id && h.source_port_identity == own);
-        assert!(h.sdo_id == pre_inst.default_ds.sdo_id && h.domain_number == pre_inst.default_ds.domain_number);
+        let f = actions.event.unwrap();
+        assert!(!f.link_local && frame_well_formed(&f, 0x1));
+        let h = spec_frame(&f);
+        assert!(h.sequence_id == id && h.source == own);
+        assert!(h.sdo_id == u16::from(pre_inst.default_ds.sdo_id) && h.domain == pre_inst.default_ds.domain_number);
     } else {
         // C08: end-to-end Delay_Req only by the slave port
         assert!(post == want && actions.n == 0);
@@ -413,7 +411,7 @@ fn c09_send_e2e_delay_request() {
 
 /// slave-side handlers on a port that is not Slave: frame (C07/C08)
 #[kani::proof]
-#[kani::unwind(9)]
+#[kani::unwind(66)]
 #[kani::stub(<Duration as core::ops::Div<i32>>::div, stub_div_by_two)]
 #[kani::stub(<Duration as core::ops::Div<f64>>::div, stub_div_by_two)]
 fn c07_slave_handlers_when_not_slave() {
@@ -445,7 +443,7 @@ fn p2p_setup_state() -> PortState {
 /// Pdelay_Req emission (any port state: the peer mechanism runs on every P2P port): fresh id, the
 /// exchange record is reset, one event send (link-local) with the PDelayReq context, timer re-armed.
 #[kani::proof]
-#[kani::unwind(9)]
+#[kani::unwind(66)]
 #[kani::stub(crate::time::Interval::as_core_duration, stub_as_core_duration)]
 #[kani::stub(core::time::Duration::mul_f64, stub_mul_f64)]
 fn c14_send_p2p_delay_request() {
@@ -456,7 +454,6 @@ fn c14_send_p2p_delay_request() {
     let pre = port_view(&port);
     let pre_inst = instance_view(lock.peek());
     let own = port.port_identity;
-    unsafe { DECODE_FRAMES = true; }
 
     let actions = summarize(port.send_delay_request(), 3);
     let post = port_view(&port);
@@ -477,17 +474,16 @@ fn c14_send_p2p_delay_request() {
     assert!(post == want);
     assert!(actions.n == 2 && actions.n_reset_delay_req == 1 && actions.n_send_event == 1);
     assert!(actions.ctx_kind == 2 && actions.ctx_id == id);
-    let f = actions.event.clone().unwrap();
-    assert!(f.link_local && f.len == 54 && f.declared_len == 54);
-    let (h, body, tlv) = f.decoded.unwrap();
-    assert!(matches!(body, MessageBody::PDelayReq(_)) && tlv == 0);
-    assert!(h.sequence_id == id && h.source_port_identity == own);
-    assert!(h.sdo_id == pre_inst.default_ds.sdo_id && h.domain_number == pre_inst.default_ds.domain_number);
+    let f = actions.event.unwrap();
+    assert!(f.link_local && frame_well_formed(&f, 0x2));
+    let h = spec_frame(&f);
+    assert!(h.sequence_id == id && h.source == own);
+    assert!(h.sdo_id == u16::from(pre_inst.default_ds.sdo_id) && h.domain == pre_inst.default_ds.domain_number);
 }
 
 /// transmit timestamp of the Pdelay_Req (t1): accepted only for the request in flight, once.
 #[kani::proof]
-#[kani::unwind(9)]
+#[kani::unwind(66)]
 #[kani::stub(<Duration as core::ops::Div<i32>>::div, stub_div_by_two)]
 #[kani::stub(<Duration as core::ops::Div<f64>>::div, stub_div_by_two)]
 fn c14_pdelay_timestamp() {
@@ -529,7 +525,7 @@ fn peer_times_realistic(p: &PeerDelayState) {
 /// Pdelay_Resp (t2 in the body, t4 = receive time - correction; one-step: t3 := t2).
 /// A response to the request in flight from a *second* responder makes the port Faulty and is not used.
 #[kani::proof]
-#[kani::unwind(9)]
+#[kani::unwind(66)]
 #[kani::stub(<Duration as core::ops::Div<i32>>::div, stub_div_by_two)]
 #[kani::stub(<Duration as core::ops::Div<f64>>::div, stub_div_by_two)]
 fn c14_pdelay_resp() {
@@ -597,7 +593,7 @@ fn c14_pdelay_resp() {
 
 /// Pdelay_Resp_Follow_Up (t3 = responseOriginTimestamp + correction), same responder only.
 #[kani::proof]
-#[kani::unwind(9)]
+#[kani::unwind(66)]
 #[kani::stub(<Duration as core::ops::Div<i32>>::div, stub_div_by_two)]
 #[kani::stub(<Duration as core::ops::Div<f64>>::div, stub_div_by_two)]
 fn c14_pdelay_resp_follow_up() {
